@@ -164,7 +164,7 @@ def detect(sid, props=None, tier="quick"):
 def report():
     rows = []
     for sid in sorted(os.listdir(SEEDED)):
-        if not os.path.isdir(os.path.join(SEEDED, sid)):
+        if not os.path.isdir(os.path.join(SEEDED, sid)) or sid.startswith("_"):
             continue
         m = load_meta(sid)
         det = m.get("detection", {})
